@@ -10,6 +10,7 @@ struct C02Item
   int type;
   int task_work;       // scheduling points inside the task function
   int ctor_work;       // Tracked: scheduling points inside the default constructor
+  int nested;          // 1: the function hands over a function of its own (async) and waits for its result before it returns
   int natural;         // 1: the function returns the result type's natural 'nothing' (0, empty string, empty vector, zeroed struct)
   int nact;
   int act[6];
